@@ -534,6 +534,10 @@ class FunctionType(ParametrizedTypeBase):
             [replace(inp, ty=inp.ty.transform(transformer)) for inp in self.inputs],
             self.output.transform(transformer),
             self.params,
+            # Comptime type arguments also need to be transformed (and not dropped)
+            comptime_args=[
+                cast(ConstArg, arg.transform(transformer)) for arg in self.comptime_args
+            ],
         )
 
     def instantiate_partial(self, args: "PartialInst") -> "FunctionType":
@@ -549,7 +553,10 @@ class FunctionType(ParametrizedTypeBase):
             # However, we have to down-shift the de Bruijn index.
             if arg is None:
                 param = param.with_idx(len(remaining_params))
-                remaining_params.append(param.instantiate_bounds(full_inst))
+                # The bound variable standing for the kept parameter must carry the
+                # parameter's type in the *new* context (bounds instantiated)
+                param = param.instantiate_bounds(full_inst)
+                remaining_params.append(param)
                 arg = param.to_bound()
 
             # Set the `preserve` flag for instantiated tuples and None
